@@ -196,6 +196,11 @@ class SimFS:
                 if act[0] == 'oserror':
                     self._count(f'fault.fs.{errno.errorcode.get(act[1], act[1])}')
                     raise OSError(act[1], os.strerror(act[1]), path)
+                if act[0] == 'raise':
+                    # an exception that is not an OSError, raised "between two file-system
+                    # operations" (by the code that runs just before this one)
+                    self._count(f'fault.exception.{act[1].__name__}')
+                    raise act[1]('injected between two file-system operations')
                 if act[0] == 'die':
                     self._count('fault.death')
                     self.die(pid)
